@@ -7,5 +7,6 @@ let () =
       print_endline (List.hd c);
       (match mode with
        | "write" -> Mwrite.run_write (List.tl c)
+       | "lex" -> Mlex.run_lex (List.tl c)
        | _ -> failwith "unknown mode");
       print_endline "end") cases
